@@ -585,8 +585,8 @@ fn minimise_program(p: &Program, a: &World, b: &World, scratch: &Path, fakebin: 
 fn budgets(t: Tier) -> (u64, u64, usize, usize) {
     // (generated in-process programs, subprocess programs, worlds in-process, worlds subprocess)
     match t {
-        Tier::Quick => (1500, 64, 4, 2),
-        Tier::Thorough => (60_000, 1_600, 6, 3),
+        Tier::Quick => (simcore::scaled(1500), simcore::scaled(64), 4, 2),
+        Tier::Thorough => (simcore::scaled(60_000), simcore::scaled(1_600), 6, 3),
     }
 }
 
